@@ -363,7 +363,7 @@ PROPS["C01"] = dict(
 )
 
 PROPS["C02"] = dict(
-    modules=["Essential.Props.C02"],
+    modules=["Essential.Props.C02", "Essential.Props.C02b"],
     gen=gen_check.c02_cases,
     model_is_spec=True, abort_is_violation=True,
     nontrivial=lambda body, out: out.startswith("ok") or out.startswith("err") or out.startswith("some") or out.startswith("none"),
